@@ -261,12 +261,13 @@ Proof. exact gen_provides_factory_eq. Qed.
 Print Assumptions C13_generated_factory_eq_model.
 
 (* Provides.changed: the model's notify deletes exactly the entries the two guards of the source
-   select among the declarations whose class depends on the changed one *)
+   select among the declarations that hear of the change (their class, or a class specification
+   among their arguments, depends on the changed class: prov_depends) *)
 Theorem C13_generated_changed_eq_model : forall fuel w st c,
   notify fuel w st c =
   mkState (st_impl st) (st_cprov_of st) (st_cprovs st) (st_provs st)
           (filter (fun kp : ckey * nat =>
-                     negb (reaches fuel w st (fst (fst kp)) c && gen_prov_changed true true))
+                     negb (prov_depends fuel w st (fst kp) c && gen_prov_changed true true))
                   (st_cache st))
           (st_insts st).
 Proof. exact gen_prov_changed_eq. Qed.
@@ -290,7 +291,7 @@ Definition w0 : world :=
   mkWorld [(nm "I0", []); (nm "I1", [0]); (nm "I2", []); (nm "I3", [])]
           [(nm "C0", []); (nm "C1", [0]); (nm "C2", [1]); (nm "C3", [1; 0]);
            ((str_of_string "builtins", str_of_string "complex"), [])]
-          [(2, [7%Z]); (3, [])] [4] [] [].
+          [(2, [7%Z]); (3, [])] [4] [] [] None.
 
 (* @implementer(I1) C0; @implementer_only(I2) C1; classImplementsFirst(C3, I3); implementedBy(C2);
    @provider(I2) C0 *)
@@ -417,7 +418,7 @@ Proof. vm_compute. repeat split. Qed.
 Definition w1 : world :=
   mkWorld [(nm "I0", []); (nm "I1", [0]); (nm "I2", [])]
           [(nm "C0", []); (nm "Outer1.C1", [0])]
-          [(1, [])] [] [(0, nm "Falsy"); (1, nm "Falsy")] [(1, [2])].
+          [(1, [])] [] [(0, nm "Falsy"); (1, nm "Falsy")] [(1, [2])] None.
 Example C13_witness_falsy_metaclass_oldstyle :
   let st := run 8 w1 [OpImplementedBy 1; OpClassImplements 1 [0]; OpClassProvides 1 [1]] in
   wf_globals w1 = true /\
@@ -431,4 +432,29 @@ Example C13_witness_falsy_metaclass_oldstyle :
   option_map (fun qr => let '(s, y) := rebuild 8 w1 st (reduce_cprov w1 qr) in
                         (y, option_map (obj_interfaces 8 w1 s) y)) (nth_error (st_cprovs st) 2)
     = Some (Some (OCProv 3), Some [1]).
+Proof. vm_compute. repeat split. Qed.
+
+(* declarations that name Interface itself and another class's specification:
+   index 3 is zope.interface.Interface (the base of I0 and I2), argument 4 + c is implementedBy(class c) *)
+Definition w2 : world :=
+  mkWorld [(nm "I0", [3]); (nm "I1", [0]); (nm "I2", [3]);
+           ((str_of_string "zope.interface", str_of_string "Interface"), [])]
+          [(nm "C0", []); (nm "C1", [])] [(1, [])] [] [] [] (Some 3).
+Example C13_witness_interface_and_spec_arguments :
+  let st := run 9 w2 [OpClassImplements 0 [1]; OpClassImplements 1 [3];
+                      OpDirectlyProvides 0 [4; 3; 2]; OpClassProvides 1 [4; 3]] in
+  wf_globals w2 = true /\
+  obj_interfaces 9 w2 st (OImpl 1) = [3] /\
+  option_map pv_bases (nth_error (st_provs st) 0) = Some [RC 0; RI 2; RC 1] /\
+  option_map (reduce_prov w2) (nth_error (st_provs st) 0)
+    = Some (Call FProvides [ByName (nm "C1"); Call FImplementedBy [ByName (nm "C0")];
+                            ByName (str_of_string "zope.interface", str_of_string "Interface"); ByName (nm "I2")]) /\
+  option_map (fun pr => snd (rebuild 9 w2 st (reduce_prov w2 pr))) (nth_error (st_provs st) 0) = Some (Some (OProv 0)) /\
+  obj_interfaces 9 w2 st (OProv 0) = [1; 2; 3] /\
+  option_map (fun pr => let '(s, y) := rebuild 9 w2 (run 9 w2 [OpClassImplements 0 [1]; OpClassImplements 1 [3]])
+                                                (reduce_prov w2 pr) in option_map (obj_interfaces 9 w2 s) y)
+             (nth_error (st_provs st) 0) = Some (Some [1; 2; 3]) /\
+  option_map cp_bases (nth_error (st_cprovs st) 2) = Some [RC 0; RType] /\
+  option_map (fun qr => let '(s, y) := rebuild 9 w2 st (reduce_cprov w2 qr) in option_map (obj_interfaces 9 w2 s) y)
+             (nth_error (st_cprovs st) 2) = Some (Some [1]).
 Proof. vm_compute. repeat split. Qed.
